@@ -14,7 +14,7 @@ from ..interp import Interp, Hooks, Budget
 from ..state import State, Obj, IntV, PtrV, NULL, MAXLEN
 from ..terms import Lin, ZERO
 from . import own
-from .common import short, fn_loc
+from .common import short, fn_loc, robust
 
 LEVEL = 'proof'
 EXPLANATION = ('abstract interpretation of substr/left/right/trim* with free scalars over their whole type and symbolic string size; '
@@ -364,33 +364,83 @@ def separators(run, m, F, E, L):
                         problems.append('%s_%s searches with %s' % (side, which, se[0][2].split('(')[0]))
                     found = s2.is_ge0(idx.lin)
                     kind, a0, a1 = res[0][1], res[0][2], res[0][3]
+                    # the result as a byte range [lo, hi) of the string ('END' = up to the end), however it is spelled:
+                    # left(n) = [0,n), substr(s,c) = [s,s+c) (c = ST_AUTO_SIZE: to the end), copy of *this = [0,END), string() = [0,0)
+                    rng = None
+                    if kind == 'left' and isinstance(a0, IntV):
+                        rng = (ZERO, I.as_u(s2, a0))
+                    elif kind == 'substr' and isinstance(a0, IntV) and isinstance(a1, IntV):
+                        s0 = I.as_s(s2, a0)
+                        c0 = I.as_u(s2, a1)
+                        if s0 is not None and c0 is not None and s2.is_ge0(s0) is True:
+                            rng = (s0, 'END' if s2.is_eq0(c0 - SIZE_MAX) is True else s0 + c0)
+                    elif kind == 'whole':
+                        rng = (ZERO, 'END') if isinstance(a0, PtrV) and a0.obj == this else None
+                        if rng is None:
+                            problems.append('copies %r, not *this' % (a0,))
+                            continue
+                    elif kind == 'empty':
+                        rng = (ZERO, ZERO)
+                    if rng is None or rng[0] is None or rng[1] is None:
+                        und.append('result %s(%r, %r) not expressible as a byte range' % (kind, a0, a1))
+                        continue
+
+                    def differ(d, what):
+                        """d == 0 required"""
+                        if s2.is_eq0(d) is True:
+                            return
+                        env = s2.find_model([d], lambda v: v[0] != 0) if robust([d]) else None
+                        if env is not None or not d.t:
+                            problems.append(what + ('; witness ' + own.fmt_env(env) if env else ''))
+                        else:
+                            und.append(what + ' (not decided)')
                     if found is True:
                         nfound += 1
                         if side == 'before':
-                            ok = kind == 'left' and isinstance(a0, IntV) and s2.is_eq0(I.as_s(s2, a0) - idx.lin) is True
-                            if not ok:
-                                problems.append('match at index i: result is %s(%r), expected left(i)' % (kind, a0))
+                            differ(rng[0], 'match at index i: the result starts at %r, expected the bytes before the match [0, i)' % (rng[0],))
+                            if rng[1] == 'END':
+                                problems.append('match at index i: the result runs to the end of the string, expected [0, i)')
+                            else:
+                                differ(rng[1] - idx.lin, 'match at index i: the result ends at %r, expected at the match [0, i)' % (rng[1],))
                         else:
-                            if kind != 'substr' or not isinstance(a0, IntV):
-                                problems.append('match at index i: result is %s, expected substr(i + |sep|)' % kind)
-                                continue
-                            skip = I.as_s(s2, a0) - idx.lin
+                            skip = rng[0] - idx.lin
                             exp = seplen
                             if exp is None:
                                 at = [a for a, k in skip.t if isinstance(a, tuple) and a[0] == 'strlen' and a[1] == 'SEP']
                                 exp = Lin.atom(at[0]) if at else None
-                            if exp is None or s2.is_eq0(skip - exp) is not True:
-                                problems.append('text after the match starts %r bytes after it, but the separator searched for is %s bytes long' %
-                                                (skip, '1' if form == 'char' else ('strlen(sep)' if form == 'cstr' else 'sep.size()')))
-                            if isinstance(a1, IntV) and s2.is_eq0(I.as_u(s2, a1) - SIZE_MAX) is not True:
-                                problems.append('substr count is %r, expected the rest of the string' % (a1,))
+                            if exp is None:
+                                if not skip.t:
+                                    problems.append('text after the match starts %r bytes after it, but the separator searched for is strlen(sep) bytes long' % (skip,))
+                                else:
+                                    und.append('start of the text after the match (%r) not comparable with the length of the separator' % (skip,))
+                            elif s2.is_eq0(skip - exp) is not True:
+                                env = s2.find_model([skip - exp], lambda v: v[0] != 0) if robust([skip - exp]) else None
+                                if env is not None or not (skip - exp).t:
+                                    problems.append('text after the match starts %r bytes after it, but the separator searched for is %s bytes long' %
+                                                    (skip, '1' if form == 'char' else ('strlen(sep)' if form == 'cstr' else 'sep.size()')))
+                                else:
+                                    und.append('start of the text after the match (%r) not decided against the separator length' % (skip,))
+                            if rng[1] != 'END':
+                                rest = rng[1] - entry['size']
+                                if s2.is_ge0(rest) is not True:
+                                    env = s2.find_model([rest], lambda v: v[0] < 0) if robust([rest]) else None
+                                    (problems if env is not None else und).append('the text after the match ends at %r, expected the rest of the string' % (rng[1],))
                     elif found is False:
                         nmiss += 1
                         want = {('before', 'first'): 'whole', ('after', 'last'): 'whole', ('before', 'last'): 'empty', ('after', 'first'): 'empty'}[(side, which)]
-                        if kind != want:
-                            problems.append('no match: returns %s, the property says %s' % (kind, 'the whole string' if want == 'whole' else 'the empty string'))
-                        elif kind == 'whole' and not (isinstance(a0, PtrV) and a0.obj == this):
-                            problems.append('no match: copies %r, not *this' % (a0,))
+                        if want == 'whole':
+                            isw = s2.is_eq0(rng[0]) is True and (rng[1] == 'END' or s2.is_ge0(rng[1] - entry['size']) is True)
+                            ise = rng[1] != 'END' and s2.is_eq0(rng[1] - rng[0]) is True
+                            if ise and s2.is_eq0(entry['size']) is not True:
+                                problems.append('no match: returns the empty string, the property says the whole string')
+                            elif not isw:
+                                und.append('no match: result [%r, %r) not decided to be the whole string' % rng)
+                        else:
+                            ise = rng[1] != 'END' and s2.is_eq0(rng[1] - rng[0]) is True
+                            if rng[1] == 'END' and s2.is_eq0(rng[0]) is True:
+                                problems.append('no match: returns the whole string, the property says the empty string')
+                            elif not ise:
+                                und.append('no match: result [%r, %r) not decided to be empty' % rng)
                     else:
                         und.append('path does not decide whether the search succeeded')
                 if not problems and (nfound == 0 or nmiss == 0):
